@@ -76,7 +76,7 @@ def fixture_files():
 
 
 def cases(tier):
-    return 4800 if tier == "quick" else 320000
+    return 4800 if tier == "quick" else 60000
 
 
 def strategy(hazards):
@@ -385,8 +385,8 @@ def fuzz_campaign(tier, ctx):
     except Exception as e:  # build problems are infrastructure, not violations
         FUZZ["error"] = str(e)[-800:]
         return out
-    runs = 200000 if tier == "quick" else 8000000
-    r = fuzzing.run(runs, ctx.seed, max_total_time=120 if tier == "quick" else 3600)
+    runs = 200000 if tier == "quick" else 3000000
+    r = fuzzing.run(runs, ctx.seed, max_total_time=120 if tier == "quick" else 900)
     FUZZ.update({"engine": "libFuzzer via cargo-fuzz, target harness/fuzz/fuzz_compile.rs", "executions": r["execs"],
                  "coverage_edges": r["cov"], "wall_s": round(r["wall_s"], 1), "jobs": r["jobs"],
                  "seed_corpus_files": r["seed_files"], "final_corpus_files": r["corpus_size"],
